@@ -1,1 +1,67 @@
+(* C06 - keep-sorted reports a block iff its keys are out of order.
+   Property theorems only; proofs are in proofs/Keys_proofs.v. *)
 From BW Require Import SpecKeys.
+From BWP Require Import TextFacts Keys_proofs.
+
+(* No violation iff every adjacent pair of keys is in order (any number of keys;
+   `viol a b` = "b is strictly out of order after a" in the chosen direction/format). *)
+Theorem C06_no_violation_iff : forall viol, (forall a b, exists r, viol a b = Ok r) -> forall ks,
+  ks_check viol ks = Ok None <->
+  forall i a b, pair_at ks i a b -> viol (k_val a) (k_val b) = Ok false.
+Proof. exact ks_check_none. Qed.
+Print Assumptions C06_no_violation_iff.
+
+(* A violation designates exactly the first key that is strictly out of order
+   relative to its predecessor. *)
+Theorem C06_violation_is_first : forall viol, (forall a b, exists r, viol a b = Ok r) -> forall ks k,
+  ks_check viol ks = Ok (Some k) <->
+  exists i a, pair_at ks i a k /\ viol (k_val a) (k_val k) = Ok true /\
+              forall j x y, (j < i)%nat -> pair_at ks j x y -> viol (k_val x) (k_val y) = Ok false.
+Proof. exact ks_check_some. Qed.
+Print Assumptions C06_violation_is_first.
+
+(* Equal neighbours are in order, whatever the direction and format. *)
+Theorem C06_equal_in_order : forall o fmt (asc : bool) a r,
+  sort_cmp o fmt a a = Ok r -> cmp_eqb r (if asc then Gt else Lt) = false.
+Proof. exact equal_keys_in_order. Qed.
+Print Assumptions C06_equal_in_order.
+
+(* Numeric zeros of either sign are equal. *)
+Theorem C06_zeros_equal : f64_cmp 0 two63 = Eq /\ f64_cmp two63 0 = Eq.
+Proof. exact f64_zeros_equal. Qed.
+Print Assumptions C06_zeros_equal.
+
+(* Lexicographic comparison is by code point: Lt iff proper prefix or smaller
+   first differing code point. *)
+Theorem C06_lexicographic_order : forall a b,
+  str_cmp a b = Lt <->
+  exists p x y a' b', (a = p /\ b = p ++ y :: b') \/ (a = p ++ x :: a' /\ b = p ++ y :: b' /\ x < y).
+Proof. exact str_cmp_lt. Qed.
+Print Assumptions C06_lexicographic_order.
+
+Theorem C06_lexicographic_antisym : forall a b, str_cmp b a = CompOpp (str_cmp a b).
+Proof. exact str_cmp_antisym. Qed.
+Print Assumptions C06_lexicographic_antisym.
+
+(* Direction: empty / whitespace-only and `asc` in any letter case are ascending,
+   `desc` in any letter case is descending. *)
+Theorem C06_direction_blank : forall v, all_ws v -> parse_direction v = Ok true.
+Proof. exact parse_direction_blank. Qed.
+Print Assumptions C06_direction_blank.
+Theorem C06_direction_asc : forall v, eq_ignore_ascii_case v (T "asc") = true -> parse_direction v = Ok true.
+Proof. exact parse_direction_asc. Qed.
+Print Assumptions C06_direction_asc.
+Theorem C06_direction_desc : forall v, eq_ignore_ascii_case v (T "desc") = true -> parse_direction v = Ok false.
+Proof. exact parse_direction_desc. Qed.
+Print Assumptions C06_direction_desc.
+
+(* Keys without a pattern are exactly the trimmed non-blank lines, in order. *)
+Theorem C06_keys_trimmed : forall idx ls,
+  map k_val (keys_trim idx ls) = filter (fun t => match t with [] => false | _ => true end) (map trim ls).
+Proof. exact keys_trim_vals. Qed.
+Print Assumptions C06_keys_trimmed.
+
+(* At most one violation per block. *)
+Theorem C06_at_most_one : forall o file b ds, keep_sorted o file b = Ok ds -> (length ds <= 1)%nat.
+Proof. exact keep_sorted_at_most_one. Qed.
+Print Assumptions C06_at_most_one.
